@@ -35,6 +35,17 @@ int main(int argc, char **argv) {
     auto r = t->connectSync("peer", 1, TlsMode::None, std::chrono::milliseconds(5000)); io.join();
     if (r.isOk() || !log.empty()) replay_io::fail("S1 a session connectSync never handed out must produce no global callback and no observer call");
     replay_io::ok("suppressed");
+  } else if (scen == 5) {
+    // clause UN8: observe A, B, C; unobserve A; close -> the remaining observers run in REGISTRATION order: B then C
+    auto a = t->observe(sid, [&](SessionId, const TransportErrorInfo &) { log.push_back("A"); });
+    t->observe(sid, [&](SessionId, const TransportErrorInfo &) { log.push_back("B"); });
+    t->observe(sid, [&](SessionId, const TransportErrorInfo &) { log.push_back("C"); });
+    t->unobserve(a);
+    e->cbs.onClose(sid, TransportErrorInfo{TransportError::PeerClosed, "peer closed"});
+    std::string got; for (auto &l : log) got += l + " "; printf("observe A,B,C; unobserve A; onClose -> %s\n", got.c_str());
+    std::vector<std::string> want = {"global:7", "B", "C"};
+    if (log != want) replay_io::fail("UN8 (C02): after unobserve the remaining observers must still run in registration order (global, B, C)");
+    replay_io::ok("registration order kept");
   } else if (scen == 4) {
     // clause AC1: bytes buffered in Sync mode, the peer closes, then the application switches Sync -> Async
     int ud = 1; t->setSessionData(sid, &ud, [&](void *) { log.push_back("cleanup"); });
